@@ -222,8 +222,11 @@ func (c chainBridge) insertMomentums(insert sync.Locker, momentums []*nom.Detail
 				continue
 			}
 			if patch := c.chain.GetPatch(block.Address, block.Identifier()); patch != nil {
-				// already applied
-				continue
+				// already applied, unless the uncommitted block differs from the one the momentum carries in a field
+				// which the hash doesn't cover: the momentum commits to the stored bytes, its version replaces ours
+				if uncommitted, err := c.chain.GetFrontierAccountStore(block.Address).ByHash(block.Hash); err == nil && uncommitted != nil && uncommitted.SameBytes(block) {
+					continue
+				}
 			}
 			transaction, err := c.supervisor.ApplyBlock(block)
 			if err != nil {
